@@ -14,7 +14,7 @@
   its neighbour order (C12 `substituent_order_forest` gives the re-read order); component roots keep their
   mark; every bond, ring closures included, keeps its kind as seen from each end, so directional bonds keep
   their direction relative to the two atoms they join.  Proof: the simulation of Purr/Lemmas/RtcRing.lean
-  (see C01).  What is not a theorem: `walk` = `walkRec` (compared on every run).
+  (see C01).  `stereo_walk` states it about `walk` itself (Purr/Lemmas/LoopRecL.lean: loop = recursion).
 
   Stage 1, proved for every atom kind, every bond list and every entry position: the
   walker's local obligation (the kind it hands to the follower), the builder's, and their composition —
@@ -51,6 +51,20 @@ theorem stereo_roundtrip (g : Graph) (hw : WellFormed g) (es : List (Event × Na
   · exact ⟨_, by rw [List.getElem?_map, hd]; rfl, Or.inl ⟨rfl, rfl⟩⟩
   · subst h2
     exact ⟨_, by rw [List.getElem?_map, hd]; rfl, Or.inr ⟨pre, back, post, h1, h3, h4, rfl, rfl⟩⟩
+
+/-- the same, stated about `walk` itself (the loop mirroring src/walk/walk.rs; see C01.roundtrip_walk) -/
+theorem stereo_walk (g : Graph) (hw : WellFormed g) (hok : (walk g).2 = .ok) (hne : (walk g).1 ≠ []) :
+    ∃ t g' ord, write? (walk g).1 = some t ∧ (read t).2 = .ok ∧ build? (read t).1 = some (.ok g') ∧
+      ∀ x atomX, g[x]? = some atomX → ∃ atom', g'[pos ord x]? = some atom' ∧
+        ((atom'.kind = atomX.kind.norm ∧ atom'.bonds = atomX.bonds.map (fun b => ⟨b.kind, pos ord b.tid⟩)) ∨
+         ∃ pre back post, atomX.bonds = pre ++ back :: post ∧ (∀ o ∈ pre, o.tid ≠ back.tid) ∧
+           (∀ o ∈ post, o.tid ≠ back.tid) ∧
+           atom'.bonds = (back :: (pre ++ post)).map (fun b => ⟨b.kind, pos ord b.tid⟩) ∧
+           atom'.kind = (flipN pre.length atomX.kind).norm) := by
+  obtain ⟨es, ord, hr, hev⟩ := walkRec_of_walk_ok g hw hok
+  have hne' : es ≠ [] := by intro e; subst e; simp at hev; exact hne hev
+  obtain ⟨t, g', h1, h2, h3, h4⟩ := stereo_roundtrip g hw es ord hr hne'
+  exact ⟨t, g', ord, by rw [← hev]; exact h1, h2, h3, h4⟩
 
 /-- STAGE 2 (subsumed by stage 3): the forest case -/
 theorem stereo_forest (g : Graph) (hw : WellFormed g) (es : List (Event × Nat)) (ord : List Nat)
